@@ -121,7 +121,9 @@ F_Prune(V, W, names, revert) ==
   IN     Fail("PrunedTipSet",    W.names = K /\ UniqueNames(W))
     \cup Fail("PruneIsInduced",  W.names = K => NTSplits(W) = InducedNT(V, K))
     \cup Fail("PruneKeepsDist",  W.names = K => DistMat(W) = DistMatOn(V, K))
-    \cup Fail("NoSingleChild",   SingleNodes(W) = {} /\ RootDeg(W) >= 2)
+    \* on an input that already had single-child inner nodes: none is added (those away from the removed tips stay)
+    \cup Fail("NoSingleChild",   IF SingleNodes(V) = {} THEN SingleNodes(W) = {} /\ RootDeg(W) >= 2
+                                 ELSE Cardinality(SingleNodes(W)) <= Cardinality(SingleNodes(V)))
 
 F_Lookups(W, res) ==
      Fail("ExistsTipFresh", SeqRange(res.exists) = SeqRange(res.asked) \cap W.names)
